@@ -5,7 +5,9 @@ package main
 // Model: C04.serve ∘ C04.run (lean/EchoModel/C04.lean).
 
 import (
+	"context"
 	"fmt"
+	"io"
 	"io/fs"
 	"math/rand"
 	"net/http"
@@ -18,7 +20,7 @@ import (
 )
 
 type c04Op struct {
-	Kind   string `json:"kind"` // pre use host group groupUse add
+	Kind   string `json:"kind"` // pre use host group groupUse add appWrites
 	ID     int    `json:"id,omitempty"`
 	From   string `json:"from,omitempty"` // pre: rewrite rule
 	To     string `json:"to,omitempty"`
@@ -43,6 +45,41 @@ type c04Op struct {
 type c04Case struct {
 	Ops []c04Op `json:"ops"`
 	Req rReq    `json:"req"`
+	// Flavour: what the request looks like apart from host, method and path - none of it has a say in which
+	// layers run.  0 plain, 1 its context is already cancelled, 2 its deadline has already passed, 3 websocket
+	// handshake headers, 4 HTTP/1.0 with Connection: close, 5 a body with a declared length and Expect
+	Flavour int `json:"flavour,omitempty"`
+	// CancelAt: the middleware with this id, when it is entered, replaces the request by one whose context is
+	// cancelled (a timeout middleware whose budget is used up); 0 = none
+	CancelAt int `json:"cancel_at,omitempty"`
+}
+
+var c04FlavourNames = []string{"plain", "ctx-cancelled", "ctx-deadline-passed", "upgrade-headers", "http10-close", "body-expect"}
+
+func c04Flavoured(req *http.Request, f int) *http.Request {
+	switch f {
+	case 1:
+		cctx, cancel := context.WithCancel(req.Context())
+		cancel()
+		req = req.WithContext(cctx)
+	case 2:
+		cctx, cancel := context.WithDeadline(req.Context(), time.Unix(1, 0))
+		_ = cancel // (the context is done already; it is released with the request)
+		req = req.WithContext(cctx)
+	case 3:
+		req.Header.Set("Upgrade", "websocket")
+		req.Header.Set("Connection", "Upgrade")
+	case 4:
+		req.Proto, req.ProtoMajor, req.ProtoMinor = "HTTP/1.0", 1, 0
+		req.Header.Set("Connection", "close")
+		req.Close = true
+	case 5:
+		req.Body = io.NopCloser(strings.NewReader("payload"))
+		req.ContentLength = 7
+		req.Header.Set("Content-Type", "text/plain")
+		req.Header.Set("Expect", "100-continue")
+	}
+	return req
 }
 
 func c04Ints(l []int) string {
@@ -69,6 +106,9 @@ func c04Wire(c *c04Case) string {
 	for _, o := range c.Ops {
 		if o.Kind == "add" && o.Via == "any" {
 			n += len(c04AnyMethods) - 1
+		}
+		if o.Kind == "appWrites" {
+			n-- // what the application does with its own memory is no registration: the model does not see it
 		}
 	}
 	parts := []string{wInt(n)}
@@ -126,12 +166,22 @@ func c04Run(ci any) Result {
 	e := echo.New()
 	e.Logger.SetOutput(nopWriter{})
 	var preRule c04Op
+	flavoured := false // the request being served is the one of the case (not a warm-up, not the plain twin)
 	mw := func(id int, from, to string) echo.MiddlewareFunc {
 		rule := preRule
+		isPre := preRule.Kind == "pre"
 		preRule = c04Op{}
 		return func(next echo.HandlerFunc) echo.HandlerFunc {
 			return func(ctx echo.Context) error {
 				trace = append(trace, "I"+strconv.Itoa(id))
+				if flavoured && id == c.CancelAt && !isPre {
+					// (not for Pre middleware: ServeHTTP routes on the request object it was called with, so a Pre
+					// middleware that REPLACES the request hides the rewrites of the Pre middleware after it from the
+					// router - that is about SetRequest, not about a cancelled context)
+					cctx, cancel := context.WithCancel(ctx.Request().Context())
+					cancel()
+					ctx.SetRequest(ctx.Request().WithContext(cctx))
+				}
 				if from != "" && ctx.Request().URL.Path == from {
 					ctx.Request().URL.Path = to
 					ctx.Request().URL.RawPath = ""
@@ -156,13 +206,19 @@ func c04Run(ci any) Result {
 	// each of them (an application that builds its lists from a shared slice): if echo keeps a list it was given and
 	// later appends to it, it writes into the application's memory, i.e. into the lists handed over afterwards.
 	arena := make([]echo.MiddlewareFunc, 0, 4096)
-	mws := func(ids []int) []echo.MiddlewareFunc {
+	var copied [][2]int // the windows handed to APIs that take a copy of the list (everything on groups)
+	mwsK := func(ids []int, groupLevel bool) []echo.MiddlewareFunc {
 		start := len(arena)
 		for _, id := range ids {
 			arena = append(arena, mw(id, "", ""))
 		}
+		if groupLevel && len(ids) > 0 {
+			copied = append(copied, [2]int{start, len(arena)})
+		}
 		return arena[start:len(arena)]
 	}
+	mws := func(ids []int) []echo.MiddlewareFunc { return mwsK(ids, true) }
+	scribbles := 0
 	var groups []*echo.Group
 	var infos []c04GroupInfo
 	routeGroup := map[int]int{} // hid -> group index (-1 echo)
@@ -227,7 +283,21 @@ func c04Run(ci any) Result {
 					return ctx.NoContent(http.StatusOK)
 				}
 				routeGroup[hid] = o.G
-				c04Register(e, groups, o, h, mws(o.Mws))
+				c04Register(e, groups, o, h, mwsK(o.Mws, o.G >= 0))
+			case "appWrites":
+				// the application re-uses its array: every list it handed to a group (at creation, by Use, with a
+				// route on a group - echo works on copies of those) is overwritten, and so is the room behind them
+				for _, w := range copied {
+					for i := w[0]; i < w[1]; i++ {
+						scribbles++
+						arena[i] = mw(900+scribbles, "", "")
+					}
+				}
+				spare := arena[len(arena):cap(arena)]
+				for i := 0; i < 8 && i < len(spare); i++ {
+					scribbles++
+					spare[i] = mw(900+scribbles, "", "")
+				}
 			}
 		}
 	}()
@@ -239,6 +309,7 @@ func c04Run(ci any) Result {
 	}
 	status := 0
 	fileBody := ""
+	twin := ""
 	func() {
 		defer func() {
 			if r := recover(); r != nil {
@@ -267,10 +338,28 @@ func c04Run(ci any) Result {
 			warmed = true
 		}
 		rec := httptest.NewRecorder()
-		e.ServeHTTP(rec, rNewRequest(c.Req))
+		flavoured = true
+		e.ServeHTTP(rec, c04Flavoured(rNewRequest(c.Req), c.Flavour))
+		flavoured = false
 		status = rec.Code
 		if status == http.StatusOK {
 			fileBody = rec.Body.String()
+		}
+		if c.Flavour != 0 || c.CancelAt != 0 {
+			// the twin: the same host, method and path as a plain request to the same application
+			first, sp := trace, seenPath
+			defer func() { seenPath = sp }()
+			trace = nil
+			rec2 := httptest.NewRecorder()
+			e.ServeHTTP(rec2, rNewRequest(c.Req))
+			if a, b := strings.Join(first, " "), strings.Join(trace, " "); a != b || rec2.Code != status {
+				name := "middleware " + strconv.Itoa(c.CancelAt) + " cancels the request context"
+				if c.Flavour > 0 && c.Flavour < len(c04FlavourNames) {
+					name = c04FlavourNames[c.Flavour]
+				}
+				twin = fmt.Sprintf("%s %q (%s) ran [%s] status %d, the same request without that ran [%s] status %d: what runs depends on host, method and path only", c.Req.Method, c.Req.Path, name, a, status, b, rec2.Code)
+			}
+			trace = first
 		}
 	}()
 	if panicked != "" {
@@ -314,6 +403,9 @@ func c04Run(ci any) Result {
 		if res.Oracle == "" {
 			res.Oracle = s
 		}
+	}
+	if twin != "" {
+		fail(twin)
 	}
 	var ins, outs []int
 	innerErr := false
@@ -361,6 +453,9 @@ func c04Run(ci any) Result {
 		seen[id]++
 		if seen[id] > 1 {
 			fail(fmt.Sprintf("middleware %d ran twice: %s", id, res.Obs))
+		}
+		if id > 900 {
+			fail(fmt.Sprintf("a middleware (%d) ran that the application never registered: it wrote it into its own array after echo had been given the list: %s", id, res.Obs))
 		}
 	}
 	if len(ins) != len(outs) {
@@ -461,7 +556,7 @@ func c04Run(ci any) Result {
 			}
 			continue
 		}
-		if len(g.creation) == 0 {
+		if len(g.current) == 0 {
 			continue
 		}
 		// claimed by a route registered outside the group?
@@ -507,10 +602,47 @@ func c04Run(ci any) Result {
 					fail(fmt.Sprintf("group %d (host %q prefix %q) middleware %d did not run for %s %q (pattern %q, trace %s)", gi, g.host, g.prefix, id, effMethod, effPath, seenPath, res.Obs))
 				}
 			}
+			// "including requests that end in 404 inside the group": a request no ordinary route answers and that
+			// ends at one of the two patterns Group.Use keeps registered for the misses of this group (prefix and
+			// prefix/*) gets the group's whole list - every Use call so far re-registered them - also when the
+			// application put a not-found handler of its own on such a pattern, before or after a Use call.
+			// (Only when no other group has the same host and prefix: otherwise the two share the patterns.)
+			miss := handlerHid < 0 && status == http.StatusNotFound
+			if handlerHid >= 0 {
+				for _, o := range c.Ops {
+					if o.Kind == "add" && o.Hid == handlerHid {
+						miss = o.Method == routeNotFound
+					}
+				}
+			}
+			gp := g.prefix
+			if gp == "" {
+				gp = "/"
+			}
+			shared := false
+			for gj, h := range infos {
+				if gj != gi && h.host == g.host && h.prefix == g.prefix {
+					shared = true
+				}
+			}
+			if miss && !shared && (seenPath == gp || seenPath == g.prefix+"/*") {
+				res.Tags = append(res.Tags, "miss-at-group-catch-all")
+				for _, id := range g.current {
+					if !inTrace(id) {
+						fail(fmt.Sprintf("group %d (host %q prefix %q) middleware %d did not run for %s %q, which ends as a miss at the group's own pattern %q (trace %s)", gi, g.host, g.prefix, id, effMethod, effPath, seenPath, res.Obs))
+					}
+				}
+			}
 		}
 	}
 	res.Nontrivial = len(ins) >= 2 && len(infos) > 0
-	res.Tags = []string{fmt.Sprintf("layers-%d", minInt(len(ins), 6))}
+	res.Tags = append(res.Tags, fmt.Sprintf("layers-%d", minInt(len(ins), 6)))
+	if c.Flavour > 0 && c.Flavour < len(c04FlavourNames) {
+		res.Tags = append(res.Tags, "request-"+c04FlavourNames[c.Flavour])
+	}
+	if c.CancelAt != 0 {
+		res.Tags = append(res.Tags, "middleware-cancels-context")
+	}
 	if warmed {
 		res.Tags = append(res.Tags, "after-requests-to-every-route")
 	}
@@ -594,12 +726,103 @@ func minInt(a, b int) int {
 
 var c04Segs = []string{"/a", "/b", "/g", "/api", "/v1", "/x"}
 
+// c04AliasBlock: a fixed block of programs (the same for every seed) about who owns a middleware list.  All lists are
+// windows of one application-owned array with spare capacity (see c04Run); the group is created through e.Group /
+// an empty e.Group + first Use / Group.Group / e.Host; between creation and the later Use calls (both orders) the
+// application hands the next window to an Echo-level route or to a sibling group; it may then overwrite its array;
+// finally a route is registered on the group.  Whatever the order, every route and every miss runs what was
+// registered for it.
+func c04AliasBlock() []any {
+	var out []any
+	for creator := 0; creator < 4; creator++ {
+		for between := 0; between < 3; between++ {
+			for later := 0; later < 3; later++ {
+				for scribble := 0; scribble < 2; scribble++ {
+					for order := 0; order < 2; order++ {
+						if order == 1 && (between == 0 || later == 0) {
+							continue // nothing to swap
+						}
+						id, hid := 1, 1
+						ids := func(n int) []int {
+							var l []int
+							for i := 0; i < n; i++ {
+								l = append(l, id)
+								id++
+							}
+							return l
+						}
+						var ops []c04Op
+						target, prefix, host, ngroups := 0, "/al", "", 1
+						switch creator {
+						case 0:
+							ops = append(ops, c04Op{Kind: "group", Parent: -1, Prefix: "/al", Mws: ids(2)})
+						case 1:
+							ops = append(ops, c04Op{Kind: "group", Parent: -1, Prefix: "/al"}, c04Op{Kind: "groupUse", G: 0, Mws: ids(2)})
+						case 2:
+							ops = append(ops, c04Op{Kind: "group", Parent: -1, Prefix: "/p", Mws: ids(1)}, c04Op{Kind: "group", Parent: 0, Prefix: "/al", Mws: ids(2)})
+							target, prefix, ngroups = 1, "/p/al", 2
+						case 3:
+							ops = append(ops, c04Op{Kind: "host", Name: "a.com", Mws: ids(2)})
+							prefix, host = "", "a.com"
+						}
+						sib := -1
+						stepA := func() {
+							switch between {
+							case 1:
+								ops = append(ops, c04Op{Kind: "add", G: -1, Method: "GET", Path: "/e", Hid: hid, Mws: ids(2)})
+								hid++
+							case 2:
+								ops = append(ops, c04Op{Kind: "group", Parent: -1, Prefix: "/sib", Mws: ids(2)})
+								sib = ngroups
+								ngroups++
+							}
+						}
+						stepB := func() {
+							for k := 0; k < later; k++ {
+								ops = append(ops, c04Op{Kind: "groupUse", G: target, Mws: ids(1)})
+								if sib >= 0 && k == 0 {
+									ops = append(ops, c04Op{Kind: "groupUse", G: sib, Mws: ids(1)})
+								}
+							}
+						}
+						if order == 0 {
+							stepA()
+							stepB()
+						} else {
+							stepB()
+							stepA()
+						}
+						if scribble == 1 {
+							ops = append(ops, c04Op{Kind: "appWrites"})
+						}
+						ops = append(ops, c04Op{Kind: "add", G: target, Method: "GET", Path: "/r", Hid: hid, Mws: ids(1)})
+						hid++
+						reqs := []rReq{{Method: "GET", Path: prefix + "/r", Host: host}, {Method: "GET", Path: prefix + "/missing", Host: host}}
+						if between == 1 {
+							reqs = append(reqs, rReq{Method: "GET", Path: "/e"})
+						}
+						if sib >= 0 {
+							ops = append(ops, c04Op{Kind: "add", G: sib, Method: "GET", Path: "/r", Hid: hid})
+							hid++
+							reqs = append(reqs, rReq{Method: "GET", Path: "/sib/r"}, rReq{Method: "POST", Path: "/sib/missing"})
+						}
+						for _, q := range reqs {
+							out = append(out, &c04Case{Ops: ops, Req: q})
+						}
+					}
+				}
+			}
+		}
+	}
+	return out
+}
+
 func c04Gen(r *rand.Rand, tier string) []any {
 	progs, per := 350, 14
 	if tier == "thorough" {
 		progs, per = 4000, 24
 	}
-	var out []any
+	out := c04AliasBlock()
 	for p := 0; p < progs; p++ {
 		nextID, nextHid := 1, 1
 		newIDs := func(max int) []int {
@@ -688,6 +911,51 @@ func c04Gen(r *rand.Rand, tier string) []any {
 				}
 			}
 			paths = append(paths, pre+"/missing")
+			nops = r.Intn(3)
+		}
+		if len(ops) == 0 && r.Intn(6) == 0 {
+			// the application's own not-found handlers on and around the two patterns a group keeps registered for
+			// its misses, interleaved with Use calls: on the group through Group.RouteNotFound / Add / Match, on the
+			// Echo instance for the same pattern (outside the group), on a sub-group created in between
+			pre := c04Segs[r.Intn(len(c04Segs))]
+			ops = append(ops, c04Op{Kind: "group", Parent: -1, Prefix: pre, Mws: newIDs(2)})
+			gs = append(gs, ginfo{"", pre})
+			usedPrefix["|"+pre] = true
+			g := len(gs) - 1
+			sub := -1
+			for k, steps := 0, 3+r.Intn(5); k < steps; k++ {
+				switch r.Intn(8) {
+				case 0, 1, 2:
+					ao := c04Op{Kind: "add", G: g, Method: routeNotFound, Path: []string{"/*", "", "/*", "/sub/*", "/r/*"}[r.Intn(5)], Hid: nextHid,
+						Fails: r.Intn(2) == 0, Mws: newIDs(1), Via: []string{"verb", "verb", "", "match"}[r.Intn(4)]}
+					nextHid++
+					ops = append(ops, ao)
+				case 3, 4:
+					ops = append(ops, c04Op{Kind: "groupUse", G: g, Mws: newIDs(2)})
+				case 5:
+					ao := c04Op{Kind: "add", G: -1, Method: routeNotFound, Path: pre + []string{"/*", "", "/sub/*"}[r.Intn(3)], Hid: nextHid,
+						Fails: r.Intn(2) == 0, Mws: newIDs(1), Via: []string{"verb", ""}[r.Intn(2)]}
+					nextHid++
+					ops = append(ops, ao)
+				case 6:
+					if sub < 0 {
+						ops = append(ops, c04Op{Kind: "group", Parent: g, Prefix: "/sub", Mws: newIDs(1)})
+						gs = append(gs, ginfo{"", pre + "/sub"})
+						usedPrefix["|"+pre+"/sub"] = true
+						sub = len(gs) - 1
+					} else {
+						ao := c04Op{Kind: "add", G: sub, Method: routeNotFound, Path: []string{"/*", ""}[r.Intn(2)], Hid: nextHid, Mws: newIDs(1), Via: "verb"}
+						nextHid++
+						ops = append(ops, ao)
+					}
+				default:
+					ops = append(ops, c04Op{Kind: "add", G: g, Method: []string{"GET", "POST"}[r.Intn(2)], Path: []string{"/r", "/*", "/r/:id"}[r.Intn(3)], Hid: nextHid, Mws: newIDs(1)})
+					nextHid++
+				}
+			}
+			for k := 0; k < 2; k++ {
+				paths = append(paths, pre, pre+"/", pre+"/zzz", pre+"/r", pre+"/r/more", pre+"/sub", pre+"/sub/zzz")
+			}
 			nops = r.Intn(3)
 		}
 		for k := 0; k < nops; k++ {
@@ -797,6 +1065,11 @@ func c04Gen(r *rand.Rand, tier string) []any {
 				paths = append(paths, full)
 			}
 		}
+		if len(ops) > 1 && r.Intn(10) == 0 {
+			// somewhere in between the application re-uses the array its lists live in
+			at := 1 + r.Intn(len(ops)-1)
+			ops = append(ops[:at:at], append([]c04Op{{Kind: "appWrites"}}, ops[at:]...)...)
+		}
 		for _, g := range gs {
 			paths = append(paths, g.prefix, g.prefix+"/missing", g.prefix+"/a/deep")
 		}
@@ -821,7 +1094,14 @@ func c04Gen(r *rand.Rand, tier string) []any {
 			case 1:
 				q.Host = []string{"b.org", "other.net", "a.com:80", "a.com:8080", "Api.b.org", "api.b.org", "a.com:8080"}[r.Intn(7)]
 			}
-			out = append(out, &c04Case{Ops: ops, Req: q})
+			cs := &c04Case{Ops: ops, Req: q}
+			switch r.Intn(12) {
+			case 0, 1:
+				cs.Flavour = 1 + r.Intn(len(c04FlavourNames)-1)
+			case 2:
+				cs.CancelAt = 1 + r.Intn(nextID)
+			}
+			out = append(out, cs)
 		}
 	}
 	return out
@@ -830,6 +1110,16 @@ func c04Gen(r *rand.Rand, tier string) []any {
 func c04Shrink(ci any) []any {
 	c := ci.(*c04Case)
 	var out []any
+	if c.CancelAt != 0 {
+		d := *c
+		d.CancelAt = 0
+		out = append(out, &d)
+	}
+	if c.Flavour != 0 {
+		d := *c
+		d.Flavour = 0
+		out = append(out, &d)
+	}
 	for i := range c.Ops {
 		// dropping a group-creating op would shift group indices: only drop ops nobody refers to
 		if c.Ops[i].Kind == "host" || c.Ops[i].Kind == "group" {
@@ -855,7 +1145,7 @@ func c04Shrink(ci any) []any {
 func init() {
 	register(&Prop{
 		ID:             "C04",
-		Rule:           "random registration programs (3-14 ops: Pre with optional path rewrite, Use, Host groups, nested groups incl. empty sub-prefix, Group.Use after routes were added, routes with 0-2 route-level middleware, failing handlers; every middleware has a unique id) x requests derived from the registered paths, group prefixes (+/missing, deeper), rewrite sources, mutants x methods x Host values; non-trivial = at least two middleware layers ran and the program has a group; distinct = distinct model op lines",
+		Rule:           "random registration programs (3-14 ops: Pre with optional path rewrite, Use, Host groups, nested groups incl. empty sub-prefix, Group.Use after routes were added, routes with 0-2 route-level middleware, failing handlers; every middleware has a unique id) x requests derived from the registered paths, group prefixes (+/missing, deeper), rewrite sources, mutants x methods x Host values; a sixth of the programs are about the application's own RouteNotFound handlers on and around a group's two catch-all patterns (through Group.RouteNotFound / Add / Match, on the Echo instance, on a sub-group) interleaved with Use calls; a fixed block of 144 programs (same for every seed) about ownership of the middleware lists (all lists are windows of one application-owned array; e.Group / first Use / Group.Group / e.Host x what is handed over in between x later Use calls x both orders x the application overwriting its array); a quarter of the requests are flavoured (context already cancelled / past its deadline / cancelled by a middleware on the way in, upgrade headers, HTTP/1.0, a body with Expect) and are served together with their plain twin: same layers required; non-trivial = at least two middleware layers ran and the program has a group; distinct = distinct model op lines",
 		New:            func() any { return &c04Case{} },
 		Gen:            c04Gen,
 		Run:            c04Run,
